@@ -73,6 +73,45 @@ def schema_shapes(draw):
             'data': {}, 'catalog': draw(st.sampled_from(['with-models', 'with-models-dicts', 'names', 'dicts']))}
 
 
+@st.composite
+def correlated_alias_shapes(draw):
+    """The outer table's alias is spelled like the integration and a nested select refers to it (correlation): the
+    qualifier of that reference is an alias, not the integration, at every depth."""
+    q = draw(st.sampled_from(['int1', 'int1', 'INT1', 'Int1']))
+    al = draw(st.sampled_from(['int1', 'int1', 'INT1']))
+    outer_t, inner_t = draw(st.sampled_from([('t1', 't2'), ('t2', 't1'), ('t1', 't3'), ('t3', 't4'), ('t1', 't1')]))
+    oc = draw(st.sampled_from([c for c, t in model.SCHEMA[outer_t] if t == 'int']))
+    ic = draw(st.sampled_from([c for c, t in model.SCHEMA[inner_t] if t == 'int']))
+    cmp_ = draw(st.sampled_from(['=', '=', '<', '>=']))
+    # both tables have a column `a`: cutting the outer alias off `int1.a` makes it bind to the inner table
+    corr = f'(u.{ic} {cmp_} {al}.a)'
+    kind = draw(st.sampled_from(['exists', 'not-exists', 'in', 'scalar-target', 'scalar-where', 'nested-twice']))
+    inner_from = f'{q}.{inner_t} AS u'
+    if kind == 'exists':
+        where = f' WHERE EXISTS (SELECT 1 FROM {inner_from} WHERE {corr})'
+    elif kind == 'not-exists':
+        where = f' WHERE NOT EXISTS (SELECT 1 FROM {inner_from} WHERE {corr})'
+    elif kind == 'in':
+        where = f' WHERE ({al}.{oc} IN (SELECT u.a FROM {inner_from} WHERE {corr}))'
+    elif kind == 'scalar-where':
+        where = f' WHERE ((SELECT count(*) FROM {inner_from} WHERE {corr}) > 0)'
+    elif kind == 'nested-twice':
+        where = (f' WHERE EXISTS (SELECT 1 FROM {inner_from} WHERE (u.a IN (SELECT v.a FROM {q}.{outer_t} AS v '
+                 f'WHERE (v.a = {al}.a))))')
+    else:
+        where = ''
+    tg = f'{al}.{oc} AS c0, {al}.a AS c1'
+    types = ['int', 'int']
+    if kind == 'scalar-target':
+        tg += f', (SELECT count(*) FROM {inner_from} WHERE {corr}) AS c2'
+        types.append('int')
+    sql = f'SELECT {tg} FROM {q}.{outer_t} AS {al}{where}'
+    tags = ['shape:correlated-alias', 'alias:shadows-qualifier', 'sub:correlated', 'sub:' + kind]
+    return {'sql': sql, 'meta': {'order_cols': [], 'total_order': False, 'limit': False, 'tags': tags, 'types': types,
+                                 'tables': sorted({outer_t, inner_t}), 'places': ['int1']},
+            'data': draw(model.table_data(min_rows=1)), 'catalog': draw(st.sampled_from(sorted(CATALOGS)))}
+
+
 def prepare(tier):
     import mindsdb_sql.planner  # noqa
 
@@ -200,6 +239,8 @@ def judge(case, col):
 def cases(draw):
     if draw(st.integers(0, 9)) == 0:
         return draw(schema_shapes())
+    if draw(st.integers(0, 11)) == 0:
+        return draw(correlated_alias_shapes())
     c = draw(model.queries(CFG))
     c['data'] = draw(model.table_data())
     c['catalog'] = draw(st.sampled_from(sorted(CATALOGS)))
